@@ -9,6 +9,7 @@ verus! {
 //@include prelude/str_model.rs
 //@include spec/syntax_from.rs
 //@include spec/grammar.rs
+//@include spec/display.rs
 //@fmtfns
 
 // ---------------- hctl_tree.rs / operator_enums.rs
@@ -21,6 +22,11 @@ verus! {
 //@verify mk_wild_card
 //@verify mk_atom
 //@verify atomic_from_bool
+//@verify display_unary
+//@verify display_binary
+//@verify display_hybrid
+//@verify display_atomic
+//@verify display_node
 
 // ---------------- parser.rs
 //@verify is_hybrid
